@@ -22,7 +22,7 @@ type kind int
 const (
 	kUnset kind = iota
 	kUnknown
-	kInt   // TokenType / small ints
+	kInt // TokenType / small ints
 	kBool
 	kNil    // nil error / pointer
 	kNonNil // definitely non-nil
@@ -145,8 +145,8 @@ type Config struct {
 	// (RestoreState restores an earlier token).
 	IsHavoc func(fn *ssa.Function) bool
 	// Own reports whether the function body should be interpreted.
-	Own func(fn *ssa.Function) bool
-	EOF int64
+	Own     func(fn *ssa.Function) bool
+	EOF     int64
 	Resolve func(site ssa.CallInstruction, caller *ssa.Function) []*ssa.Function
 }
 
